@@ -54,7 +54,7 @@ def main():
         an = json.load(open(an_file)).get('%s-%s' % (prop, label))
         if an:
             meta['analysis'] = an
-    notes = os.path.join(wt, 'seed', 'NOTES5.md' if (label in ('I', 'J', 'K') and os.path.exists(os.path.join(wt, 'seed', 'NOTES5.md'))) else 'NOTES4.md' if (label in ('G', 'H', 'I') and os.path.exists(os.path.join(wt, 'seed', 'NOTES4.md'))) else 'NOTES3.md' if label in ('E', 'F', 'G') else ('NOTES2.md' if label in ('C', 'D') else 'NOTES.md'))
+    notes = os.path.join(wt, 'seed', 'NOTES6.md' if (label in ('K', 'L', 'M') and os.path.exists(os.path.join(wt, 'seed', 'NOTES6.md'))) else 'NOTES5.md' if (label in ('I', 'J', 'K') and os.path.exists(os.path.join(wt, 'seed', 'NOTES5.md'))) else 'NOTES4.md' if (label in ('G', 'H', 'I') and os.path.exists(os.path.join(wt, 'seed', 'NOTES4.md'))) else 'NOTES3.md' if label in ('E', 'F', 'G') else ('NOTES2.md' if label in ('C', 'D') else 'NOTES.md'))
 
     # ---- 1. confirm in the scratch worktree
     sh('git checkout -- include', wt)
